@@ -55,7 +55,45 @@ def evidence_C09(agg, tier):
     }
 
 
+def plan_C08(tier):
+    n = scale(tier, 2600, 200000)
+    return {
+        "backends": ["c", "py"],
+        "subs": [
+            {"name": "fault_free", "cfg": {"fault_free": True}, "runs": n // 4, "batch": 20},
+            {"name": "faults", "cfg": {}, "runs": n - n // 4, "batch": 20},
+        ],
+        "budget_s": scale(tier, 50, 3300),
+    }
+
+
+def evidence_C08(agg, tier):
+    c = agg.ctr
+    return {
+        "rule": ("one evaluation = one simulated run: a warm process (swarm-drawn LRU sizes 0/1/2/3/8/128/unbounded for the nine internal "
+                 "caches, cache_configure sizes, 0-300 prelude calls, cache_clear/cache_configure/lru re-wrap/gc faults interleaved) executes a "
+                 "seeded program of 3-40 operations with monitors M1/M2/M3 after every operation; then every operation is re-evaluated in "
+                 "its own pristine fork that executes only the derivation closure of its operands, and outcomes (value or exception, plus "
+                 "deep observation when drawn) must be equal. distinct_nontrivial = distinct (operation list, knobs) hashes among runs in "
+                 "which a cache fault (clear/configure/re-wrap/eviction/size-0 miss) took effect between two operations sharing an operand "
+                 "or a text argument."),
+        "fault_kinds_fired": {k[len("fault_"):]: v for k, v in sorted(c.items()) if k.startswith("fault_")},
+        "probes": {k[len("probe_"):]: v for k, v in sorted(c.items()) if k.startswith("probe_")},
+        "cold_reference_forks": c.get("cold_reference_forks", 0),
+        "ops_executed": c.get("ops", 0),
+        "ops_raised": c.get("ops_raised", 0),
+        "state_measure": "distinct_states = distinct (operation name, set of memo keys already filled on the operand, occupancy class empty/partial/full/off of each of the nine LRUs) triples reached",
+        "simulated_time": "yarl reads no clock; simulated time is the operation counter: %d operations" % c.get("ops", 0),
+    }
+
+
 SPECS = {
+    "C08": {"machine": "c08", "level": "exploration", "plan": plan_C08, "evidence": evidence_C08,
+            "assumptions": [
+                "the cold reference is the same code in a pristine process: a change that is wrong for every history is invisible (relational oracle)",
+                "M1/M2 read the private slots _scheme.._fragment and _cache; if renamed they degrade to __getstate__ comparison",
+                "internal LRUs are re-wrapped through __wrapped__ (behaviour preserving because the wrapped functions are pure)",
+            ]},
     "C09": {"machine": "c09", "level": "exploration", "plan": plan_C09, "evidence": evidence_C09,
             "assumptions": [
                 "restart fault = pickle/copy/deepcopy/__reduce_ex__ round trip; only __getstate__ state survives",
